@@ -656,6 +656,16 @@ pub fn plan(prop: &str, tier: &str) -> Option<Plan> {
                     s.push(e1(prop, "zst", H_GOOD, 0, "withcap", &fl, 0, 1, 0, prof, 45.0));
                     s.push(e2(prop, "zst", H_GOOD, "mut+shape2+caphuge", &fl, 1, prof, 45.0));
                     s.push(e1(prop, "tk", H_LOW, 0, "mut1+ch0+shape/cap+caphuge+fill", &fl, 20, 2, 1, prof, 45.0));
+                    // clustering hashers (tombstones): a bulk removal, then a capacity call, then every capacity argument
+                    for &hk in &[H_LOW, H_CONST] {
+                        s.push(e1(prop, "u32", hk, 0, "mut1+ch0+shape+fill/mut1+ch0+cap+fill+clone", &fl, 31, 2, 1, prof, 45.0));
+                    }
+                    // a nearly full table: bulk removal (tombstones), a reserve that starts a resize, then every capacity argument
+                    for &hk in &[H_GOOD, H_LOW] {
+                        let mut x = spot(prop, "u32", hk, "rt3/rsv3/shr64+fill", &fl, 25, 30, prof, 45.0);
+                        x.d = 3;
+                        s.push(x);
+                    }
                     for c0 in [0usize, 3, 5] {
                         // (the initial capacity shifts which boundary argument meets which resize)
                         let mut x = sweep(prop, "u32", H_GOOD, 200_000, &["c10", "cheap"], &[("stride", "0"), ("reserve_at_resize", "1"), ("audit_every", "100000")], prof, 45.0);
@@ -676,6 +686,14 @@ pub fn plan(prop: &str, tier: &str) -> Option<Plan> {
                     s.push(e1(prop, "tk", H_GOOD, 0, "withcap", &fl, 0, 1, 0, prof, 100.0));
                     s.push(e2(prop, "zst", H_GOOD, "mut+shape2+caphuge", &fl, 1, prof, 100.0));
                     s.push(e1(prop, "tk", H_LOW, 0, "mut1+ch0+shape/capall+caphuge+fill", &fl, 33, 2, 1, prof, 1200.0));
+                    for &hk in &HS4 {
+                        let mut x = spot(prop, "u32", hk, "rt3+mut1/rsv3+shape/shr64+cap+fill", &fl, 22, 31, prof, 1800.0);
+                        x.d = 3;
+                        s.push(x);
+                        let mut x = spot(prop, "u32", hk, "rt3/rsv3/shr64+cap+fill", &fl, 50, 60, prof, 1800.0);
+                        x.d = 3;
+                        s.push(x);
+                    }
                     s.push(e2(prop, "u32", H_GOOD, "mut1+ch0+shape2+caphuge", &fl, 4, prof, 1200.0));
                     for c0 in [0usize, 1, 2, 3, 4, 5, 6, 7] {
                         let mut x = sweep(prop, "u32", H_GOOD, 2_000_000, &["c10", "cheap"], &[("stride", if c0 % 2 == 0 { "0" } else { "3" }), ("reserve_at_resize", "1"), ("audit_every", "500000")], prof, 600.0);
@@ -748,11 +766,11 @@ pub fn plan(prop: &str, tier: &str) -> Option<Plan> {
                 s.extend(mk_refault(H_GOOD, 64, 80, 4, 45.0));
                 s.extend(mk(H_GOOD, 64, 160, 6, "chk", false, 45.0));
                 s.extend(mk(H_LOW, 33, 48, 3, "chk", false, 45.0));
-                s.extend(mk(H_CONST, 20, 24, 1, "chk", false, 45.0));
-                s.extend(mk(H_GOOD, 33, 20, 6, "asan", false, 45.0));
+                s.extend(mk(H_CONST, 18, 20, 2, "chk", false, 45.0));
+                s.extend(mk(H_GOOD, 33, 18, 6, "asan", false, 45.0));
                 s.extend(mk(H_TAG, 10, 6, 3, "asan", false, 45.0));
                 s.extend(mk(H_GOOD, 12, 12, 1, "chk", true, 45.0));
-                bounds = json!({"recurring": "mut1+ch0 alphabet on <=80 states to N=64: after every Hash fault of a key-adding call 64 further inserts each panicking again in the first element it relocates, every one judged, then the normal continuation; and after every fault that leaves an old table behind a continuation that starts with shrink_to_fit", "E4": "family: growth path to N=64 + states directly after one shaping deviation (<=160 states, chk; N=33, <=24 states asan); every op of the C01-style alphabet (class keys) x every callback kind x every crash point; post-fault oracle, a tour of 12 calls, the growth path across the next resize, shrink/clone/drain; per-call continuations for N<=12"});
+                bounds = json!({"recurring": "mut1+ch0 alphabet on <=80 states to N=64: after every Hash fault of a key-adding call 64 further inserts each panicking again in the first element it relocates, every one judged, then the normal continuation; and after every fault that leaves an old table behind a continuation that starts with shrink_to_fit", "E4": "family: growth path to N=64 + states directly after one shaping deviation (<=160 states, chk; N=33, <=18 states asan); every op of the C01-style alphabet (class keys) x every callback kind x every crash point; post-fault oracle, a tour of 12 calls, the growth path across the next resize, shrink/clone/drain; per-call continuations for N<=12"});
             } else {
                 for &hk in &HS4 {
                     s.extend(mk(hk, 64, 240, 8, "chk", false, 900.0));
